@@ -3,6 +3,7 @@ import FitModel.Integrity
 import FitModel.Generated.WireConsts
 import FitProps.C09
 import FitProps.WriterCrashLemmas
+import FitProps.WriterShortLemmas
 /-!
 # C11 — Destination failures surface as errors; incomplete output is never a valid file
 
@@ -19,8 +20,9 @@ PROPERTY THEOREMS (audited by ./check): C11_write_error_surfaces, C11_error_surf
 C11_error_surfaces_stream, C11_call_error_surfaces (from any state, any validator, call by call), C11_consts (obligation on
 the regenerated profile version), C11_prefix_never_valid, C11_prefix_never_valid_stream, C11_stale_header_witness (the
 finding F13 / KF-C11-1, repaired in /repo f65e050; the theorems speak about both variants through `StreamCfg`),
-C11_fault_is_crash_prefix, C11_fault_is_crash_prefix_stream, C11_call_fault_is_crash_prefix, C11_crash_prefix_never_valid
-(at the end of the file).
+C11_fault_is_crash_prefix, C11_fault_is_crash_prefix_stream, C11_call_fault_is_crash_prefix, C11_crash_prefix_never_valid,
+and — destinations that return a short count WITHOUT error, outside the property's assumption — C11_short_write_model_refines,
+C11_short_write_buffered_safe, C11_short_write_witness (all at the end of the file).
 The model's encoder has no panic outcome (its result type is writer state × success); a panic of the implementation
 under a fault is a disagreement of the `enc-faults` family.
 -/
@@ -320,6 +322,65 @@ example :
     (encodeChainW (single 4 0) Witness.o (Enc.new Witness.o .seek 0 ⟨[], 0, []⟩) [⟨Witness.h, 0, [Witness.m1]⟩]).1.w.d.log.head? =
       some (.seek (-27) false) ∧
     (encodeChainW (single 4 0) Witness.o (Enc.new Witness.o .seek 0 ⟨[], 0, []⟩) [⟨Witness.h, 0, [Witness.m1]⟩]).2.2 = false := by
+  decide +kernel
+
+/-! ### destinations that break `io.Writer`'s contract: a short count WITHOUT error (`FitModel/WriterShort.lean`)
+
+All theorems above assume the contract (`n < len(p)` comes with an error: `Writer.Faults`). What the code does when a
+destination answers `(n < len(p), nil)` is modelled separately (`Sched`, `…R` functions: `bufio.Writer.Write` as the loop it
+is) and tied by the `s`-entries of family enc-faults. -/
+
+/-- THE EXTENDED MODEL IS THE MODEL on contract-abiding schedules — in particular the unrolled `bufio.Writer.Write` of
+`FitModel/Writer.lean` IS the loop of bufio.go (≤ 3 rounds) —: every theorem of this file speaks about the extended
+model too as long as short counts come with an error. -/
+theorem C11_short_write_model_refines (F : Faults) (c : StreamCfg) (o : Opts) (h : Fit.Wire.Hdr) :
+    (∀ (w : W) (p : Bytes), w.writeR (Sched.ofFaults F) p = w.write F p) ∧
+    (∀ (e : Enc) (fs : List FitIn), encodeChainR (Sched.ofFaults F) o e fs = encodeChainW F o e fs) ∧
+    (∀ {σ : Type} (V : MsgValidator σ) (e : Enc) (f : FitIn), encodeVR V (Sched.ofFaults F) o e f = encodeV V F o e f) ∧
+    (∀ {σ : Type} (V : MsgValidator σ) (s : Stream) (vs : σ) (m : WMsg),
+      s.writeMessageVR V (Sched.ofFaults F) o h vs m = s.writeMessageV V F o h vs m) ∧
+    (∀ {σ : Type} (V : MsgValidator σ) (s : Stream) (vs : σ),
+      s.sequenceCompletedVR V (Sched.ofFaults F) c o h vs = s.sequenceCompletedV V F c o h vs) :=
+  ⟨W.writeR_ofFaults F, fun e fs => encodeChainR_ofFaults F o fs e, fun V e f => encodeVR_ofFaults V F o e f,
+    fun V s vs m => writeMessageVR_ofFaults V F o h s vs m, fun V s vs => sequenceCompletedVR_ofFaults V F c o h s vs⟩
+
+/-- BEHIND A WRITE BUFFER SHORT WRITES ARE HARMLESS: for every buffer size > 0 and EVERY schedule of answers — errors and
+short counts without error, anywhere — a series of `Write` calls followed by `Flush` that all report success has left
+exactly the written bytes, in order, behind what was there (`bufio.Writer.Write` writes the remainder of a short direct
+write again; `Flush` turns a short count into `io.ErrShortWrite`). So with the encoder's default 4096-byte buffer a
+contract-breaking destination either gets every byte or makes a call fail. -/
+theorem C11_short_write_buffered_safe (R : Sched) (w : W) (ps : List Bytes) (hs : w.size ≠ 0)
+    (hend : w.d.pos = w.d.content.length) (hok : (writesFlushR R w ps).2 = true) :
+    (writesFlushR R w ps).1.d.content = w.d.content ++ w.buf ++ ps.flatten ∧ (writesFlushR R w ps).1.buf = [] :=
+  writesFlushR_acc R ps w hs hend hok
+
+namespace Witness
+/-- operation `k` takes `j` bytes and returns NO error; everything else is healthy -/
+def shortAt (k j : Nat) : Sched := { resp := fun i => if i = k then .short j else .ok, extra := 1 }
+def runShort (kind : Kind) (bs k j : Nat) := encodeChainR (shortAt k j) o (Enc.new o kind bs ⟨[], 0, []⟩) [⟨h, 0, [m1]⟩]
+def whole : Bytes := encodeChain o [(h, [m1])]
+end Witness
+
+/-- … AND WITHOUT A BUFFER THEY ARE NOT NOTICED (`WithWriteBufferSize(0)`; the assumption "the destination honours
+io.Writer's contract" is necessary there). Kernel-evaluated runs of one sequence (27 bytes):
+(1) unbuffered plain writer, the definition record's `Write` takes 4 of 9 bytes and returns nil: `Encode` reports success,
+    5 bytes are missing from the destination, the integrity check rejects it;
+(2) the same answer behind a 4-byte buffer (header write, 5 of 14 bytes): bufio writes the other 9 bytes again — success,
+    the destination holds the complete sequence; also when 0 bytes were taken;
+(3) a 4096-byte buffer, the final flush takes 20 of 27 bytes and returns nil: `io.ErrShortWrite` — `Encode` fails;
+(4) unbuffered write-at / seeker destination, the header rewrite (`WriteAt`, or `Write` after the seek back) takes 5 of
+    14 bytes: success is reported (`_, err = w.WriteAt(…)` ignores the count; the seek forward uses it), the header is
+    half rewritten and the integrity check rejects it. -/
+theorem C11_short_write_witness :
+    ((Witness.runShort .plain 0 1 4).2 = (1, true) ∧ (Witness.runShort .plain 0 1 4).1.w.d.content.length = 22 ∧
+      Fit.Integrity.checkIntegrity (Witness.runShort .plain 0 1 4).1.w.d.content = .err .eof 0) ∧
+    ((Witness.runShort .plain 4 0 5).2 = (1, true) ∧ (Witness.runShort .plain 4 0 5).1.w.d.content = Witness.whole ∧
+      (Witness.runShort .plain 4 0 0).2 = (1, true) ∧ (Witness.runShort .plain 4 0 0).1.w.d.content = Witness.whole) ∧
+    ((Witness.runShort .plain 4096 0 20).2 = (0, false) ∧ (Witness.runShort .plain 4096 0 20).1.w.d.content = Witness.whole.take 20) ∧
+    ((Witness.runShort .at 0 4 5).2 = (1, true) ∧ (Witness.runShort .seek 0 5 5).2 = (1, true) ∧
+      (Witness.runShort .at 0 4 5).1.w.d.content = (Witness.runShort .seek 0 5 5).1.w.d.content ∧
+      (Witness.runShort .at 0 4 5).1.w.d.content ≠ Witness.whole ∧
+      Fit.Integrity.checkIntegrity (Witness.runShort .at 0 4 5).1.w.d.content = .err .crc 0) := by
   decide +kernel
 
 end Fit.C11
